@@ -88,13 +88,12 @@ impl Matcher for SizeMatcher {
                 .value_to_match
                 .matches(byte_size_to_unit_size(self.unit, metadata.len())),
             Err(e) => {
-                writeln!(
+                let _ = writeln!(
                     &mut stderr(),
                     "Error getting file size for {}: {}",
                     file_info.path().to_string_lossy(),
                     e
-                )
-                .unwrap();
+                );
                 false
             }
         }
